@@ -238,6 +238,40 @@ pub fn exec(rest: &str, out: &mut Out) -> (String, bool) {
                 out.oracle(line == reply, "all entry points agree", || format!("{}: {} vs parse_str_with: {}", name, line, reply));
             }
             oracles_str(out, &text, o, &reply, &res);
+            // nothing is carried from one call to the next, or from one thread to another (every 53rd case):
+            // (1) after a parse that was ABANDONED because the caller's character iterator panicked — at
+            //     several depths of a nested document, inside a string, a key, a number —, (2) with an
+            //     iterator that itself parses on every character (re-entrancy), (3) when the document is
+            //     parsed on another thread and its objects are queried here
+            if text.len() < 2000 && (out.counter_value("accepted") + out.counter_value("rejected")) % 53 == 0 {
+                let tpl = "{\"user\":\"alice\",\"session\":[1,{\"k\":[\"secret-token-\\u00e9\",-12.5e3,[[[tru";
+                let mut same = true;
+                for cut in [2usize, 6, 19, 31, 38, 52, 60, 70] {
+                    crate::EXPECTED_PANIC.store(true, std::sync::atomic::Ordering::SeqCst);
+                    let mut it = tpl.chars().take(cut);
+                    let failing = std::iter::from_fn(move || match it.next() { Some(c) => Some(Ok::<char, ()>(c)), None => panic!("the caller's iterator failed") });
+                    let _ = std::panic::catch_unwind(std::panic::AssertUnwindSafe(|| Value::parse_utf8_with(failing, o).map(|r| r.0)));
+                    crate::EXPECTED_PANIC.store(false, std::sync::atomic::Ordering::SeqCst);
+                    let again = std::panic::catch_unwind(std::panic::AssertUnwindSafe(|| show_result(&Value::parse_str_with(&text, o), false))).unwrap_or_else(|_| "PANIC".into());
+                    same &= again == reply;
+                }
+                out.oracle(same, "a parse abandoned by a panicking iterator leaves nothing behind: the next parse on this thread is unaffected", || reply.clone());
+                let reentrant = Value::parse_utf8_with(text.chars().map(|c| { let _ = Value::parse_str("[{\"a\":\"b\"},1]"); Ok::<char, ()>(c) }), o);
+                out.oracle(show_result(&reentrant, false) == reply, "an iterator that parses while being pulled does not disturb the outer parse", || reply.clone());
+                let (t2, o2) = (text.clone(), o);
+                let elsewhere = std::thread::spawn(move || Value::parse_str_with(&t2, o2)).join();
+                match elsewhere {
+                    Ok(r2) => {
+                        out.oracle(show_result(&r2, false) == reply, "parsing on another thread gives the same result", || reply.clone());
+                        if let Ok((v2, _)) = &r2 {
+                            let chars: Vec<char> = text.chars().collect();
+                            if let Ok((rv, _)) = ref_parse(&chars, o.accept_truncated_surrogate_pair, o.accept_invalid_codepoints) { lookup_oracle(out, v2, &rv, &reply); }
+                        }
+                    }
+                    Err(_) => out.oracle(false, "parsing on another thread does not panic", || reply.clone()),
+                }
+                out.count("poisoned_reentrant_crossthread");
+            }
             out.count(if res.is_ok() { "accepted" } else { "rejected" });
             if let Err(e) = &res {
                 out.count(&format!("err_{}", show_err(e, false).split(' ').nth(1).unwrap_or("?")));
